@@ -59,7 +59,9 @@ THEOREMS.update({"find": ["Tetl.C04.Props.find_eq"] + _ARG,
                  "plus": ["Tetl.C04.Props.plus_str_str_eq", "Tetl.C04.Props.plus_str_cstr_eq", "Tetl.C04.Props.plus_str_char_eq",
                           "Tetl.C04.Props.plus_cstr_str_eq", "Tetl.C04.Props.plus_char_str_eq"],
                  "erase_if": ["Tetl.C04.Props.erase_if_eq"],
-                 "replace": ["Tetl.C04.Props.replace_counterexample", "Tetl.C04.Props.replace_breaks_terminator_counterexample"]})
+                 "replace": ["Tetl.C04.Props.replace_overwrites", "Tetl.C04.Props.replace_partial", "Tetl.C04.Props.replace_ptr_partial",
+                             "Tetl.C04.Props.replace_iter_partial", "Tetl.C04.Props.replace_iter_fill_partial",
+                             "Tetl.C04.Props.replace_counterexample", "Tetl.C04.Props.replace_breaks_terminator_counterexample"]})
 THEOREMS.update({"swap": ["Tetl.C04.Props.swap_eq"], "substr": ["Tetl.C04.Props.substr_eq"],
                  "compare": ["Tetl.C04.Props.compare_sign", "Tetl.C04.Props.compare_pos_count_eq",
                              "Tetl.C04.Props.compare_pos_count_pos_count_eq"],
@@ -694,6 +696,8 @@ LEVEL_TEXT = ("The Lean 4 model of basic_inplace_string mirrors both storage lay
 LEVEL_NOTE = ("Trusted: Lean kernel + propext/Classical.choice/Quot.sound; fidelity of the hand model outside the explored inputs; "
               "g++-12/ASan/UBSan; libstdc++ as oracle for spec validation. Members listed in coverage.correspondence_only are "
               "modelled and compared on every run but have no Lean theorem yet. The replace family (overwrites only) and the "
-              "default pos of rfind are known findings (counterexample theorems; rfind_partial covers every call with a pos).")
-CORRESPONDENCE_ONLY = ["replace family (known finding F-C04-replace-overwrites-only: the model mirrors the overwrite-only code; only the "
-                       "counterexample theorems are stated, no positive theorem)"]
+              "default pos of rfind are known findings (counterexample theorems; rfind_partial covers every call with a pos, replace_*_partial "
+              "every replace whose replacement has the length of the replaced range, replace_overwrites says what the other calls with "
+              "count <= size()-pos do). replace with count > size()-pos (the overwrite runs past size(): "
+              "replace_breaks_terminator_counterexample) is neither explored by the generator nor covered by a positive theorem.")
+CORRESPONDENCE_ONLY = []
